@@ -24,18 +24,19 @@ import (
 type c10 struct {
 	base
 	fixtures map[string][]byte
+	session  *sut.SpecSession
 }
 
 func init() {
 	lib.Register(&c10{base: base{
 		id: "C10", level: "exploration",
 		technique: "runtime self-differential monitor across repetitions and processes: each document is validated repeatedly in one process (other validations in between), in several fresh processes (each with its own map-iteration seed), in both continue-on-errors modes and in three serialisations (JSON, YAML, shuffled member order); the normalised outcomes must coincide, stop-early errors must be a subset of continue-mode errors, the separately returned warnings must equal the attached ones, and warnings alone must not invalidate",
-		rule: "documents: generated specifications with several simultaneous faults (an undefined required property in many definitions, one or two inheritance cycles, a duplicated inherited property in several children, operation-level faults), single-fault and clean ones, and repository fixtures; per document 3 in-process repetitions + 3 fresh processes x 2 modes + 2 alternative serialisations; distinct = FNV-64 of the document text; non-trivial = the document produces at least one error or warning (there is something that could vary)",
+		rule: "documents: generated specifications with several simultaneous faults (an undefined required property in many definitions, one or two inheritance cycles, a duplicated inherited property in several children, operation-level faults), single-fault and clean ones, and repository fixtures; per document 2 in-process repetitions (other validations in between) + 2 repetitions on the same loaded document (accepted documents) + one long-lived validator object reused across all documents of the worker + 3 fresh processes, x 2 modes, + 2 alternative serialisations; distinct = FNV-64 of the document text; non-trivial = the document produces at least one error or warning (there is something that could vary)",
 		assumptions: []string{
 			"outcomes are compared as verdict + set of error messages + set of warning messages; a circular-ancestry message is reduced to the set of members of the cycle it names, as the property allows",
 			"sampled documents; map-order dependence shows only if the runs happen to draw different orders (6+ independent orders per document are drawn)",
 		},
-		quick: 160, thorough: 2400,
+		quick: 110, thorough: 2000,
 	}})
 }
 
@@ -60,7 +61,7 @@ func (p *c10) doc(idx int, r *lib.Rand) (tree map[string]any, what []string) {
 		t, _ := v.(map[string]any)
 		return t, []string{"fixture:" + n}
 	}
-	g := &gen.SpecGen{R: r, Tag: fmt.Sprintf("d%d", idx)}
+	g := &gen.SpecGen{R: r, Tag: fmt.Sprintf("d%d", idx), NoRefs: idx%7 == 3}
 	tree = g.Clean()
 	switch idx % 5 {
 	case 0, 1, 2:
@@ -285,9 +286,38 @@ func (p *c10) Run(w *lib.Worker, idx int, r *lib.Rand) lib.Case {
 		}
 	}
 
+	// a validator object which has validated other documents before must judge this one like a fresh validator
+	if p.session == nil {
+		p.session = sut.NewSpecSession()
+	}
+	for i, cont := range []bool{false, true} {
+		ro := p.session.Validate(text, sut.SpecOpts{Continue: cont, Strict: true})
+		c.Evals++
+		if ro.Panic != "" {
+			return fail("panic in a reused SpecValidator: "+ro.Panic, ro)
+		}
+		if key(ro) != key(first[i].O) {
+			return fail(fmt.Sprintf("a SpecValidator which validated other documents before returns another outcome than a fresh one (%s): %s  vs fresh: %s", first[i].Mode, key(ro), key(first[i].O)), []any{first, ro})
+		}
+	}
+	// the same LOADED document (one *loads.Document) validated repeatedly with fresh validators.
+	// Only for documents the library accepts: C12 allows validation to rewrite the parsed form of a
+	// document it rejects (it does, when references do not resolve), and a rewritten document is not
+	// "the same document" any more.
+	if doc, err := sut.LoadSpec(text); err == nil && cont.Valid {
+		for rep := 0; rep < 2; rep++ {
+			for i, cont := range []bool{false, true} {
+				o := sut.ValidateDoc(doc, sut.SpecOpts{Continue: cont, Strict: true})
+				c.Evals++
+				if key(o) != key(first[i].O) {
+					return fail(fmt.Sprintf("validating the same loaded document again (repetition %d, %s) gives another outcome: %s  vs first: %s", rep, first[i].Mode, key(o), key(first[i].O)), []any{first, o})
+				}
+			}
+		}
+	}
 	// repetitions in the same process, other validations in between
 	other := gen.JSON((&gen.SpecGen{R: r.Fork(), Tag: "other"}).Clean())
-	for rep := 0; rep < 3; rep++ {
+	for rep := 0; rep < 2; rep++ {
 		_ = sut.ValidateSpec(other, sut.SpecOpts{Continue: rep%2 == 0, Strict: true})
 		again := p.both(text)
 		c.Evals += 3
@@ -316,7 +346,7 @@ func (p *c10) Run(w *lib.Worker, idx int, r *lib.Rand) lib.Case {
 			}
 		}
 	}
-	c.Nums = map[string]int64{"fresh_processes": 3, "in_process_repetitions": 3}
+	c.Nums = map[string]int64{"fresh_processes": 3, "in_process_repetitions": 2}
 	// serialisation variants
 	variants := map[string][]byte{"shuffled-members": shuffledJSON(r, tree)}
 	if y, err := gen.YAML(tree); err == nil {
